@@ -179,12 +179,14 @@ theorem listRows_get (o : ROpts) (v : View) (k : Nat) (hk : k < maxItems o) (r :
   rw [List.getElem?_append_left (by simp; omega)]
   simp [hk, hr]
 
-theorem promptLines_cases (o : ROpts) : promptLines o = 1 ∨ promptLines o = 2 := by
-  unfold promptLines; split <;> simp
+theorem promptLines_cases (o : ROpts) :
+    (o.inputless = true ∧ promptLines o = 0) ∨ (o.inputless = false ∧ (promptLines o = 1 ∨ promptLines o = 2)) := by
+  unfold promptLines
+  cases o.inputless <;> simp
 
 theorem logical_length (o : ROpts) (v : View) : (logical o v).length = promptLines o + o.header0.length := by
   unfold logical
-  rcases promptLines_cases o with h | h <;> simp [h] <;> split <;> simp <;> omega
+  rcases promptLines_cases o with ⟨hi, h⟩ | ⟨hi, h | h⟩ <;> simp [h, hi] <;> split <;> simp <;> omega
 
 theorem fullRender_length (o : ROpts) (v : View) (hroom : promptLines o + o.header0.length + o.headerItems.length ≤ o.H) :
     (fullRender o v).length = o.H := by
